@@ -57,7 +57,7 @@ func NewEngine(repo, verifDir string) (*Engine, error) {
 		pkg := strings.TrimSuffix(e.Name(), ".go")
 		repoFile := filepath.Join(repo, "lib", pkg, "zz_verif_contracts.go")
 		src := repoFile
-		if _, err := os.Stat(repoFile); err != nil {
+		if _, err := os.Stat(repoFile); err != nil || os.Getenv("CSVQVC_CONTRACTS") == "mirror" {
 			src = filepath.Join(mirror, e.Name())
 			data, _ := os.ReadFile(src)
 			overlay[repoFile] = data
